@@ -30,7 +30,8 @@
  *   X <kind>                            throw(K[kind], ...)
  *   Y <kind> <how>                      other ways of raising K[kind]: how 1 = raised by a library function called
  *                                       here (get of a missing key, cast, bad index ...; kinds 0-3 and 7-9 only),
- *                                       how 2 / 3 = throw with a 300 / 6000 character message argument
+ *                                       how 2 / 3 = throw with a 300 / 6000 character message argument, how 4 = a message
+ *                                       format containing literal %% signs
  *   C <tree>                            real, non-inlined function call around the subtree
  *   M <id>                              print a mark
  *   L <t> <ids> <filters> <slots>       hand-written template t (1..4) with 2-3 LEXICALLY nested try
@@ -162,7 +163,7 @@ static Node* parse(void) {
       break;
     }
     case 'X': n->kind = N_THROW; n->k = tok_int(0, NKINDS - 1); break;
-    case 'Y': n->kind = N_THROW; n->k = tok_int(0, NKINDS - 1); n->how = tok_int(1, 3); break;
+    case 'Y': n->kind = N_THROW; n->k = tok_int(0, NKINDS - 1); n->how = tok_int(1, 4); break;
     case 'M': n->kind = N_MARK; n->id[0] = tok_int(0, 1000000); break;
     case 'C': {
       n->kind = N_CALL;
@@ -220,7 +221,10 @@ __attribute__((noinline)) static void lib_raise(int k) {
 static void do_throw(int k, int how) {
   last_thrown = K[k];
   if (how is 1) { lib_raise(k); return; }
-  if (how >= 2) {
+  if (how is 4) {
+    /* a message format with a literal per cent sign and exactly the arguments it needs */
+    throw(K[k], "kind %i is 100%% thrown, %s%%", $I(k), $S("really"));
+  } else if (how >= 2) {
     size_t l = how is 2 ? 300 : 6000;
     memset(longmsg, 'm', l); longmsg[l] = 0;
     throw(K[k], "kind %i thrown: %s", $I(k), $S(longmsg));
